@@ -112,6 +112,13 @@ class Dataset:
                     arr[idx] = int(v)
                 elif kind == 'f':
                     arr[idx] = float(np.dtype(dtype).type(v))
+                elif kind == 'S':
+                    # fixed-width byte strings: numpy cuts what does not fit, silently
+                    if isinstance(v, str):
+                        v = v.encode('utf8')
+                    if not isinstance(v, bytes):
+                        raise TypeError("fixed-width string dataset needs str/bytes, got %r" % type(v))
+                    arr[idx] = bytes(np.asarray(v, dtype=dtype))
         elif dtype is not None:
             arr = arr.astype(dtype)
         self._a = arr
